@@ -7,7 +7,7 @@ from .common import ToolError, clean_prefix, log, vh, workdir, write_ndjson
 PARTS_ARG = {"fi": "fi", "ci": "fi,ci", "sp": "sp", "rp": "rp", "co": "fi,ci,co", "x4": "fi,ci,sp,rp,co"}
 
 
-def run_iters(ctx, name, recs, texts_path, part, excl="", violation=True, shards=16, regex=False):
+def run_iters(ctx, name, recs, texts_path, part, excl="", violation=True, shards=16, regex=False, parts=None):
     d = workdir(ctx.prop)
     asts = os.path.join(d, name + ".asts.ndjson")
     write_ndjson(asts, recs)
@@ -15,12 +15,14 @@ def run_iters(ctx, name, recs, texts_path, part, excl="", violation=True, shards
     clean_prefix(prefix)
     shards = max(1, min(shards, (len(recs) + 19) // 20))
     t0 = time.time()
-    args = ["iters", "--asts", asts, "--texts", texts_path, "--out", prefix, "--shards", shards, "--parts", PARTS_ARG[part]]
+    args = ["iters", "--asts", asts, "--texts", texts_path, "--out", prefix, "--shards", shards, "--parts", parts or PARTS_ARG[part]]
     if regex:
         args += ["--with-regex", "1"]
     vh(args)
     th = time.time() - t0
-    envs = [dict(VH_RECS="%s.%d.ndjson" % (prefix, i), VH_TEXTS=texts_path, VH_PART=part, VH_EXCL=excl) for i in range(shards)]
+    pa = parts or PARTS_ARG[part]
+    x4 = "all" if ("rp" in pa and "fi" in pa) else ("rp" if "rp" in pa else "norp")
+    envs = [dict(VH_RECS="%s.%d.ndjson" % (prefix, i), VH_TEXTS=texts_path, VH_PART=part, VH_EXCL=excl, VH_X4PARTS=x4) for i in range(shards)]
     rs = tlc.run_shards("TraceIter", envs)
     tlc.require_clean(rs, "TraceIter(%s)" % name)
     log("iters %s[%s]: %d records, harness %.1fs, total %.1fs (slowest shard %.1fs)" % (name, part, len(recs), th, time.time() - t0, max(r.wall for r in rs)))
@@ -70,7 +72,7 @@ def probe_witness(ctx, w, part):
     write_ndjson(tpath, [{"t": t} for t in w["texts"]])
     sub = type(ctx)(ctx.prop, ctx.tier, ctx.seed)
     res = run_iters(sub, "witness", [{"id": 1, "ast": w["ast"], "ng": w["ng"]}], tpath, part, excl="", violation=False, shards=1,
-                    regex=(part == "x4"))
+                    regex=(part == "x4"), parts=("fi,ci,sp,co,rows" if part == "x4" else None))
     ctx.states += sub.states
     ctx.transitions += sub.transitions
     return bool(res["rejects"]) or bool(res["odd"])
